@@ -116,6 +116,31 @@ def _constant_return(fn_node: ast.AST) -> bool:
     return bool(rets) and all(r.value is None or isinstance(r.value, ast.Constant) for r in rets)
 
 
+def wrapped_stateful(ctx) -> None:
+    """Class-wrapped actors: stateful exactly when the origin has a training implementation.  The mapping defaults every
+    Actor API name (train included) to the equally named origin method, and is_stateful = the train target is a callable or
+    an attribute of the origin - nothing else."""
+    prog = ctx.prog
+    new = prog.func(f'{WACTOR}:Class.__new__')
+    loops = [n for n in core.walk_local(new.node) if isinstance(n, ast.For) and any(core.src(c) == f'mapping.setdefault({core.src(n.target)}.__name__, {core.src(n.target)}.__name__)' for c in core.calls_in(n))]
+    names = sorted(core.src(e).split('.')[-1] for e in loops[0].iter.elts) if len(loops) == 1 and isinstance(loops[0].iter, (ast.Tuple, ast.List)) else None
+    ctx.check(names == ['apply', 'get_params', 'set_params', 'train'], 'C13.stateful', new, f'every Actor API name - train included - defaults to the equally named origin method (found {names}): an origin with a train method is stateful without naming it in the mapping', loops[0] if loops else new.node, key='Class.__new__:defaults')
+    if loops:
+        g = cfg.cguards(loops[0], new.node)
+        ctx.check(g in ([('mapping is not None', True)], [('mapping is None', False)]), 'C13.stateful', new, f'the defaults apply whenever a mapping is given - also an empty one (the documented parameterless decorator); tested by presence, not truthiness (found {g})', loops[0], key='Class.__new__:defaults-guard')
+    st = prog.func(f'{WACTOR}:Class.Actor.is_stateful')
+    rets = [r for r in core.walk_local(st.node) if isinstance(r, ast.Return)]
+    asg = {core.src(a.targets[0]): a.value for a in core.walk_local(st.node) if isinstance(a, ast.Assign) and len(a.targets) == 1}
+    ok = False
+    if len(rets) == 1 and isinstance(rets[0].value, ast.BoolOp) and isinstance(rets[0].value.op, ast.Or) and len(rets[0].value.values) == 2:
+        a, b = rets[0].value.values
+        if isinstance(a, ast.Call) and core.call_name(a) == 'callable' and isinstance(b, ast.Call) and core.call_name(b) == 'hasattr' and len(b.args) == 2:
+            tgt = core.src(a.args[0])
+            val = asg.get(tgt, a.args[0])
+            ok = core.src(b.args[0]) == 'cls.Origin' and core.src(b.args[1]) == tgt and isinstance(val, ast.Subscript) and core.src(val.value) == 'cls.Mapping' and core.src(val.slice) in ('flow.Actor.train.__name__', "'train'")
+    ctx.check(ok, 'C13.stateful', st, 'a class-wrapped actor is stateful exactly when its train target is a callable or an attribute of the origin', st.node, key='Class.Actor.is_stateful')
+
+
 def pairing(ctx) -> None:
     prog = ctx.prog
     actor = prog.cls(f'{TASK}:Actor')
@@ -138,6 +163,7 @@ def pairing(ctx) -> None:
         if 'is_stateful' in ci.methods:
             ctx.check(ci.ref in IS_STATEFUL_OK, 'C13.stateful', ci.ref, f'{ci.qual} overrides is_stateful: ' + IS_STATEFUL_OK.get(ci.ref, 'not a confirmed exception'), key=f'{ci.qual}:is_stateful', loc=f'{ci.module.relpath}:{ci.methods["is_stateful"].lineno}')
     ctx.floor('C13.pairing', n, 4)
+    wrapped_stateful(ctx)
     st = prog.func(f'{TASK}:Actor.is_stateful')
     ret = next((r for r in core.walk_local(st.node) if isinstance(r, ast.Return)), None)
     ctx.check(ret is not None and core.src(ret.value) == 'cls.train.__code__ is not Actor.train.__code__', 'C13.stateful', st, 'an actor is stateful exactly when it overrides train', st.node, key='is_stateful')
